@@ -97,6 +97,11 @@ type Path struct {
 	notes    []string
 	depth    int
 	pendingEscape interface{}
+	hostileBudget int
+	forgedFirst   int
+	hostileUsed   int
+	callBounds    map[string]int
+	callCounts    map[string]int
 	sealSeq, rndSeq, lzwSeq int
 	sealsT   []*sealRecT
 	lzws     []*lzwRec
@@ -399,3 +404,12 @@ func sortedKeys(m map[string]bool) []string {
 }
 
 var _ = types.Typ
+
+// hostile: one more attacker-chosen decode result on this path; paths beyond the budget are cut (stated bound).
+func (p *Path) hostile(what string) {
+	p.hostileUsed++
+	if p.hostileBudget > 0 && p.hostileUsed > p.hostileBudget {
+		p.note(fmt.Sprintf("bound: at most %d attacker-chosen decode results (msgpack/lzw/forged plaintext) per path; deeper paths are cut", p.hostileBudget))
+		p.abort("bounded")
+	}
+}
